@@ -725,6 +725,46 @@ def _s4(program, res):
     res.assumptions.append("pandas.merge matches null keys; polars full join does not coalesce keys unless coalesce=True; SQL joins never match NULL keys")
 
 
+# SQL functions that take a number and cast anything else to DOUBLE (ANSI mode: a text that is not a number is an error; otherwise NULL / the text
+# 'NaN' becomes the number NaN)
+NUMERIC_ONLY_SQL_FUNCTIONS = {"isnan"}
+
+
+def coalesce_any_type_rule(program, res, rule="C16-S3"):
+    """the join's select list coalesces shared columns of any type through the dialect's `coalesce` formatter: a formatter that asks a numeric-only
+    question (isNaN) of its operand has to ask it of numbers only (a typeof guard), or every join over a text column fails / misreads the text 'NaN'"""
+    import re as _re
+    from .. import sqlexpr as _sqlexpr
+    n = 0
+    for mod, cls in _sqlexpr.DIALECTS:
+        try:
+            d = _sqlexpr.Dialect(program, mod, cls)
+            kind, info = d.resolve("coalesce")
+        except AnalysisError:
+            continue
+        if kind != "formatter":
+            res.ok(rule, f"{cls}: coalesce is the native COALESCE", nontrivial=False)
+            continue
+        fn = d.formatter_func(info)
+        n += 1
+        bad = None
+        for t in _sqlexpr.fold_function(fn):
+            text = _sqlexpr.render(t)
+            for m in _re.finditer(r"([A-Za-z_]+)\s*\(", text):
+                if m.group(1).lower() in NUMERIC_ONLY_SQL_FUNCTIONS:
+                    before = text[:m.start()].lower()
+                    if "typeof(" not in before:
+                        bad = (m.group(1), text)
+        if bad:
+            res.fail(rule, f"{mod}:{getattr(fn, 'name', 'coalesce')}", f"coalesce-numeric-test-on-any-type:{cls}",
+                     f"{cls} formats coalesce as `{bad[1].strip()[:90]}`: {bad[0]}() casts its argument to DOUBLE, and the join's shared columns of any type go through this "
+                     f"formatter — a natural_join with a text key fails on Spark 4 (ANSI mode: CAST_INVALID_INPUT), and with ANSI off the text 'NaN' counts as missing",
+                     f"data_algebra/{mod}.py", getattr(fn, "lineno", 0))
+        else:
+            res.ok(rule, f"{cls}: the coalesce formatter asks no numeric-only question of an operand of unknown type")
+    res.expect_count(rule, "dialects with a coalesce formatter", n, 5)
+
+
 def missing_column_type_rule(program, res, rule="C16-S5"):
     """the Pandas join / concat refuse columns of incompatible types, judged by the first non-missing cell.  A column with no non-missing cell carries
     no type (documented: type(None)); taking the type of its first cell makes an all-missing text column float (NaN) and the join that should fill it
@@ -766,6 +806,7 @@ def run(program, res, tier):
     paired_field_rewrite(program, res)
     _s3(program, res)
     _s3c(program, res)
+    coalesce_any_type_rule(program, res)
     _s4(program, res)
     res.rule("C16-S5", "joins of empty or all-missing inputs keep / ignore column types the way SQL does")
     from . import c03 as _c03
